@@ -33,11 +33,11 @@ TsCasesS == Sharded({c \in TsCases : c.p >= -Len(c.x) - 1 /\ c.p <= Len(c.x) + 1
 (***************************************************************************)
 N_ == NONE
 AlphaQuick ==
-  [Calls |-> {<<"lag", 1>>, <<"lag", -1>>, <<"lag", 0>>, <<"lead", 1>>, <<"lead", 2>>, <<"diff", 1>>, <<"diff", 0>>, <<"diff", 2>>},
-   PIdx  |-> {0, 1, -1},
-   PSl   |-> {<<0, 2, N_>>, <<N_, -1, N_>>, <<1, N_, N_>>, <<N_, N_, 2>>},
-   LIdx  |-> {11, 12},
-   LSl   |-> {<<11, 12, N_>>, <<N_, 12, N_>>, <<12, N_, N_>>, <<11, 14, 2>>},
+  [Calls |-> {<<"lag", 1>>, <<"lag", -1>>, <<"lag", 0>>, <<"lead", 1>>, <<"diff", 1>>, <<"diff", 0>>},
+   PIdx  |-> {1, -1},
+   PSl   |-> {<<0, 2, N_>>, <<N_, -1, N_>>, <<N_, N_, 2>>},
+   LIdx  |-> {12},
+   LSl   |-> {<<11, 12, N_>>, <<N_, 12, N_>>, <<12, 14, 2>>},
    Ops   |-> {"+", "-", "*"}]
 AlphaMid ==
   [Calls |-> {<<"lag", 1>>, <<"lag", -1>>, <<"lag", 0>>, <<"lag", 5>>, <<"lead", 1>>, <<"lead", 2>>, <<"lead", -1>>,
@@ -117,7 +117,7 @@ Sh_(S) == Sharded(S, H)
 
 \* this shard's expressions, by number of operator nodes: the sub-term that carries the hash
 \* is filtered before the enclosing forms are built, so no shard ever materialises the whole
-\* 3-operator level (LET definitions are evaluated once)
+\* 3-operator level
 ExprsS(sc) ==
   LET e0 == {<<"var", n>> : n \in sc.vl \cup sc.sl}
       e1 == Un(Vec(e0, sc), sc) \cup Bins(e0, e0)
@@ -133,7 +133,10 @@ EvCase(sc, sp, e) ==
   [kind |-> "ev", scen |-> sc.id, op |-> "", x |-> <<>>, p |-> 0, fill |-> NaN,
    span |-> sp, vn |-> sc.vn, vars |-> [n \in sc.vn |-> SeriesOf(n, Len(sp))],
    ln |-> sc.ln, locs |-> [n \in sc.ln |-> LocalOf(n, Len(sp))], expr |-> e]
-EvCasesS == UNION {{EvCase(sc, sp, e) : sp \in SpanSet, e \in ExprsS(sc)} : sc \in Scens}
+\* (no set of all cases is built: TLC's UNION is quadratic in the number of records)
+EvInit == \E sc \in Scens : \E sp \in SpanSet : \E e \in ExprsS(sc) : InitWith(EvCase(sc, sp, e))
+NoCases == {}
+EvFairSpec == EvInit /\ [][Next]_vars /\ WF_vars(Next)
 
 (***************************************************************************)
 (* emission                                                                *)
